@@ -189,6 +189,7 @@ func buildWorld(c *c21Case) *c21World {
 	r := simrt.NewRng(simrt.Mix(c.Seed, 1))
 	tp := c.TreeP
 	tp.NoNestedOrdered = true
+	tp.AllowInvalid = true
 	g := gen.New(&r, tp)
 	w.T = g.Tree(w.p.RootType(), w.sch).(ygot.GoStruct)
 	w.T2 = model.Clone(w.T).(ygot.GoStruct)
